@@ -214,6 +214,11 @@ func cmdCheck(args []string) {
 	genSecs := time.Since(genT0).Seconds()
 	bounded := runBounded(*repo, *verif, *prop, *tier)
 	for _, b := range bounded {
+		// cases the stand-in itself recognises as a recorded finding: reported under their own id, so that the
+		// known-findings file can list exactly this case and every other failure of the stand-in stays an alarm
+		for _, id := range sortedStrKeys(b.Known) {
+			viols = append(viols, viol{id: "bounded." + b.Name + "#" + id, what: "bounded stand-in, recognised case: " + b.Known[id], bounded: b})
+		}
 		if !b.Passed {
 			viols = append(viols, viol{id: "bounded." + b.Name, what: "bounded stand-in failed (executable check of the real code, bound: " + b.Bound + "): " + b.FirstFailure, bounded: b})
 		}
@@ -473,6 +478,15 @@ func requireVariants(verif, prop string) bool {
 	return lv[prop].RequireVariants
 }
 
+func sortedStrKeys(m map[string]string) []string {
+	var ks []string
+	for k := range m {
+		ks = append(ks, k)
+	}
+	sort.Strings(ks)
+	return ks
+}
+
 func dedupStrs(s []string) []string {
 	m := map[string]bool{}
 	out := []string{}
@@ -545,11 +559,13 @@ func writeReplay(w *vc.World, repo, verif, prop, id, what string, o *vc.Obligati
 // as "bounded" in the evidence, never as proved.
 type boundedResult struct {
 	Name, Bound, Cmd, Output, FirstFailure string
+	Known                                  map[string]string // LZVC-KNOWN id -> message: specific failing cases the stand-in recognises and reports without failing
 	Cases                                  int64
 	Passed                                 bool
 	Seconds                                float64
 }
 
+var boundedKnownRe = regexp.MustCompile(`LZVC-KNOWN id=(\S+) (.*)`)
 var boundedLineRe = regexp.MustCompile(`LZVC-BOUNDED name=(\S+) cases=(\d+) bound=(.*)`)
 
 func runBounded(repo, verif, prop, tier string) []*boundedResult {
@@ -604,6 +620,14 @@ func runBounded(repo, verif, prop, tier string) []*boundedResult {
 				r.Bound += "; "
 			}
 			r.Bound += m[1] + ": " + strings.TrimSpace(m[3])
+		}
+		for _, m := range boundedKnownRe.FindAllStringSubmatch(o, -1) {
+			if r.Known == nil {
+				r.Known = map[string]string{}
+			}
+			if _, dup := r.Known[m[1]]; !dup {
+				r.Known[m[1]] = strings.TrimSpace(m[2])
+			}
 		}
 		r.Passed = strings.Contains(o, "\nok ") && !strings.Contains(o, "--- FAIL") && r.Cases > 0
 		if !r.Passed {
